@@ -49,3 +49,12 @@ TECHNIQUE["C18"] = "deterministic simulation with injected LAPACK failures at sc
 LEVEL_TEXT["C07"] = "Observables of states and density operators drawn from session histories (any gauge, complex, un-normalised, spilled): expectation / transition amplitudes, batched expectations on generated operator LISTS (shared prefixes, duplicates, scaled copies, permutations, pool operators) through fast and slow path, occupations through the per-model operator cache, 1-/2-site and electronic RDMs, 1-site/2-site/mutual/bond entropies - all against dense partial traces; SimHash narrows Matrix.__hash__ to 1-16 bits so the collision branch of the cache is exercised (must refuse loudly or be right)."
 LEVEL_NOTE["C07"] = _CHAIN_NOTE + " RDM index convention: rho or its transpose is accepted (documented formula and electronic-RDM formula use opposite conventions)."
 TECHNIQUE["C07"] = "deterministic simulation of observation histories with narrowed-hash fault injection against dense partial traces"
+
+_EVO_NOTE = ("Trusted: scipy expm / DOP853; the harness's dense RK/Taylor stepper (fed with the LIBRARY's own tableau) as layer-1 reference. Accuracy is judged only "
+             "when the state's bonds carry, in every charge sector, as many states as the sector allows and the limit permits it (then TDVP is exact); otherwise only "
+             "bond-limit / sector / conservation / non-disturbance invariants are judged. Bounds: P&C family 6x^(p+1)/(p+1)! (clean max 1/6), PS/PS2 1e-8 (Krylov) or 20*ivp_rtol*x, "
+             "VMF 20*ivp_rtol*x+3*sqrt(reg_epsilon), CMF 2.5x^3 / 3x^2, adaptive 20*adaptive_rtol; measured/allowed maxima are in the evidence. A deterministic budget of 4000 RHS "
+             "evaluations per local ODE solve (seam on renormalizer.mps.mps.solve_ivp) ends stiff regularised steps reproducibly.")
+LEVEL_TEXT["C09"] = "Seeded evolution histories on generated models: every scheme (Taylor P&C orders 2-6, TD-RK4, all ten RK tableaux incl. embedded adaptive pairs, TDVP-PS/PS2 with three local solvers, VMF/MU-VMF, CMF first/second order/trapezoid, force_ovlp, adaptive flags), real time of both signs, time-dependent Hamiltonian callbacks (sample times checked against tableau nodes), carried configs, states of any gauge/complex/prefactor/density-operator form; each call judged against the dense propagator applied to the state before the call (two layers), plus pairwise oracles (solver A vs B, adaptive vs fixed, t vs t/2+t/2, halving order test), one-site PS norm/energy conservation at any bond dimension, bond limits."
+LEVEL_NOTE["C09"] = _EVO_NOTE
+TECHNIQUE["C09"] = "deterministic simulation of evolution call histories with per-call dense-propagator oracle, SimClock callback and ODE-budget seam"
